@@ -41,7 +41,7 @@ func Scalars(t int8, big bool) []ref.Value {
 	case ref.DOUBLE:
 		return mk(0, 0x400921fb54442d18, 0x7ff8000000000001, 0xfff0000000000000)
 	case ref.STRING:
-		r := []ref.Value{{T: t, S: []byte{}}, {T: t, S: []byte("a")}, {T: t, S: nonUTF8()}}
+		r := []ref.Value{{T: t, S: []byte{}}, {T: t, S: []byte("a")}, {T: t, S: []byte{0xff}}, {T: t, S: nonUTF8()}}
 		if big {
 			r = append(r, ref.Value{T: t, S: bigString(4097)}, ref.Value{T: t, S: bigString(9000)})
 		}
@@ -66,6 +66,9 @@ func Small(t int8, i int) ref.Value {
 	case ref.DOUBLE:
 		return ref.Value{T: t, I: 0x400921fb54442d18 + uint64(i)}
 	case ref.STRING:
+		if i%4 == 2 { // one byte that is not ASCII: a decoder converting a byte to a string as a rune would change it
+			return ref.Value{T: t, S: []byte{0xe9}}
+		}
 		return ref.Value{T: t, S: []byte(fmt.Sprintf("s%d", i))[:1+i%2]}
 	case ref.STRUCT:
 		return ref.Value{T: t, F: []ref.Field{{ID: int16(1 + i), V: ref.Value{T: ref.I32, I: uint64(7 + i)}}}}
